@@ -58,4 +58,21 @@ def frame (wd attrs ann : Bytes) : Bytes :=
   marker ++ (be16 (19 + 2 + wd.length + 2 + attrs.length + ann.length) ++
     (2 :: (be16 wd.length ++ (wd ++ (be16 attrs.length ++ (attrs ++ ann))))))
 
+
+/-- abstract UPDATE content on the level of raw attributes: conventional
+withdrawals and announcements with their path ids (on the wire only in an
+ADD-PATH session), and the attribute sequence – any attributes in any order,
+each with its own flags octet and length encoding.  (The typed content of
+Rc/Model/UpdateObs.lean is lowered to this.) -/
+structure Content where
+  wd : List (Nat × Pfx)
+  attrs : List RawAttr
+  ann : List (Nat × Pfx)
+
+/-- the reference encoder: RFC 4271 framing of the three encoded sections -/
+def encUpdate (cfg : Cfg) (c : Content) : Outcome Bytes :=
+  match encNlris .v4u (cfg.rx (1, 1)) c.wd, encNlris .v4u (cfg.rx (1, 1)) c.ann with
+  | .ok w, .ok a => .ok (frame w (encRaws c.attrs) a)
+  | _, _ => .err
+
 end Rc.Upd
